@@ -614,14 +614,14 @@ impl Run {
         for (k, v) in g.counters.iter() {
             println!("  {} = {}", k, v);
         }
+        // a confirmed failing execution is a verdict even if some machinery guard also complained
+        if g.violations > 0 {
+            return 1;
+        }
         if g.machinery_error.is_some() {
             return 2;
         }
-        if g.violations > 0 {
-            1
-        } else {
-            0
-        }
+        0
     }
 }
 
